@@ -100,8 +100,13 @@ const CustomCompression = "vxor"
 
 // CompressionString is the string stored in chunk records for this configuration.
 func (k Config) CompressionString() string {
-	if k.Compression == "custom" {
+	switch k.Compression {
+	case "custom":
 		return CustomCompression
+	case "lz4-nochecksum":
+		return "lz4"
+	case "zstd-nochecksum":
+		return "zstd"
 	}
 	return k.Compression
 }
